@@ -29,6 +29,21 @@ use serde_json::{json, Value as J};
 use std::fmt::Debug;
 use std::time::Instant;
 
+/// A conforming `Read` that hands out one byte per call.
+struct OneByte<'a> {
+    data: &'a [u8],
+    pos: usize,
+}
+
+impl std::io::Read for OneByte<'_> {
+    fn read(&mut self, buf: &mut [u8]) -> std::io::Result<usize> {
+        let n = buf.len().min(1).min(self.data.len() - self.pos);
+        buf[..n].copy_from_slice(&self.data[self.pos..self.pos + n]);
+        self.pos += n;
+        Ok(n)
+    }
+}
+
 pub trait Enumerate: Sized {
     fn enumerate() -> Vec<Self>;
 }
@@ -80,6 +95,14 @@ where
         let back: T = reader.read_deser(&mut cur).map_err(|e| ("read_deser-failed".to_string(), format!("target_block_size {tbs:?}: {e} | bytes {}", hex(&b))))?;
         if !cur.is_empty() || back != *x {
             return Err(("read_deser-differs".into(), format!("target_block_size {tbs:?}: got {back:?} with {} bytes left | bytes {}", cur.len(), hex(&b))));
+        }
+        // the same bytes from a source that delivers one byte per read (a pipe, a socket)
+        if tbs.is_none() {
+            let mut src = OneByte { data: &b, pos: 0 };
+            let back: T = reader.read_deser(&mut src).map_err(|e| ("read_deser-failed".to_string(), format!("source delivering one byte per read: {e} | bytes {}", hex(&b))))?;
+            if src.pos != b.len() || back != *x {
+                return Err(("read_deser-differs".into(), format!("source delivering one byte per read: got {back:?} after {} of {} bytes | bytes {}", src.pos, b.len(), hex(&b))));
+            }
         }
         // generic decoder accepts the bytes as exactly one conforming datum
         let mut cur: &[u8] = &b;
